@@ -564,6 +564,7 @@ def main(tier):
     c08.rule_order(ck, units)
     import rmerge
     rmerge.rule_factor_order(ck, units)
+    rmerge.rule_scratch_fits(ck, units)
     rmerge.rule_rmerge(ck, units)    # the row-merge kernel takes every entry of a row of the left matrix, with its own value
     ck.assumptions += ['backend::product / transpose / scale compute the product, adjoint and scaling (C08, not decided here)',
                        'strict decrease of level sizes and bitwise equality of actions after rebuild are not decided']
